@@ -20,3 +20,38 @@ mut("C10-1", "C10", O, """	danglings := s.graph.Remove(target)
 		}
 	}
 	return danglings, nil""", ["delete/call:Delete#0/requires:index-saved-before-blob-removed"], "blob removed before the index without it is saved")
+mut("C10-3", "C10", O, """	tmpPath := s.indexPath + ".tmp." + strconv.Itoa(os.Getpid()) + "." + strconv.FormatUint(atomic.AddUint64(&indexTempSeq, 1), 10)
+	if err := os.WriteFile(tmpPath, indexJSON, 0666); err != nil {
+		os.Remove(tmpPath)
+		return err
+	}
+	if info, err := os.Stat(s.indexPath); err == nil {
+		// keep the permission bits of the file being replaced
+		os.Chmod(tmpPath, info.Mode().Perm())
+	}
+	if err := os.Rename(tmpPath, s.indexPath); err != nil {
+		os.Remove(tmpPath)
+		return err
+	}
+	return nil
+}
+""", """	_ = strconv.Itoa
+	_ = atomic.AddUint64
+	return os.WriteFile(s.indexPath, indexJSON, 0666)
+}
+""", ["writeIndexFile/call:WriteFile#0/requires:index-replaced-by-rename-only"], "(canary) pre-fix writeIndexFile: index.json truncated in place")
+ST = "content/oci/storage.go"
+mut("C10-2", "C10", ST, """	ingest, err := s.ingest(expected, content)
+	if err != nil {
+		return err
+	}
+""", """	ingest, _ := s.ingest(expected, content)
+""", ["Push/call:Rename#0/requires:publish-only-verified-ingest", "Push/post:nil-means-verified"], "unverified ingest file renamed into blobs")
+mut("C10-4", "C10", ST, "	fp, err := os.CreateTemp(s.ingestRoot, expected.Digest.Encoded()+\"_*\")", "	fp, err := os.CreateTemp(filepath.Join(s.root, \"blobs\"), expected.Digest.Encoded()+\"_*\")", ["ingest/call:CreateTemp#0/requires:temp-file-outside-blobs"], "partial ingest file created under blobs")
+mut("C10-5", "C10", ST, """	if err := ioutil.CopyBuffer(fp, content, *buf, expected); err != nil {
+		return "", fmt.Errorf("failed to ingest: %w", err)
+	}
+""", """	if err := ioutil.CopyBuffer(fp, content, *buf, expected); err != nil && false {
+		return "", fmt.Errorf("failed to ingest: %w", err)
+	}
+""", ["ingest/post:nil-means-verified"], "verification failure of the ingest ignored")
